@@ -2,7 +2,7 @@ from checks.generic import standard
 
 def run(ctx):
     return standard(ctx,
-        props=[("Props.C02", ["c02_binding", "c02_other_user_refused", "c02_extensions", "c02_user_is_normalised",
+        props=[("Props.C02", ["c02_binding", "c02_signed_by_loaded_signer", "c02_published_for_every_initial_list", "c02_other_user_refused", "c02_extensions", "c02_user_is_normalised",
                               "c02_normalise_idempotent", "c02_old_krb_refuted"])],
         harness=("TestVerif_C02", ["kmd/common.go", "kmd/creds.go", "kmd/consts.go", "kmd/c01.go", "kmd/c02.go"]),
         cases=("CasesC02.v", [("c02_mismatches", "every decoded certificate (names, key id, key, type, CA flag, usages, extension map, verifying CA, organisations, groups, service methods, PKINIT name) and every refusal = model certgen on the same request"),
